@@ -416,6 +416,39 @@ func run(c *vf.Case) {
 			}
 			return
 		}
+		if !bubble && len(s.members) == 1 && s.members[0].Kind == zoo.ReportReceiver && c.R.Bool() {
+			skipped, ok := s.receiverReportBurst(c.R)
+			s.endStamp = s.clk.Tick()
+			var got int64 = -1
+			for i := 0; i < 300 && ok && got < 0; i++ {
+				time.Sleep(5 * time.Millisecond)
+				for _, ev := range s.rtcpOut.Events() {
+					if ev.Stamp <= s.endStamp {
+						continue
+					}
+					for _, p := range ev.Pkts {
+						if rr, isRR := p.(*rtcp.ReceiverReport); isRR {
+							for _, rep := range rr.Reports {
+								if rep.SSRC == 3000 {
+									got = int64(rep.TotalLost)
+								}
+							}
+						}
+					}
+				}
+			}
+			_ = s.i.Close()
+			c.Add("scenarios_receiver_report_burst", 1)
+			if ok && got >= 0 {
+				c.Add("conservation_checks", 1)
+				if got != skipped {
+					c.Violation("lost-update/report-receiver/cumulative-lost",
+						"interceptor %s: one reader delivered a run on SSRC 3000 that skips %d sequence numbers while reports were built every few ms; the report after the traffic ended says cumulative lost = %d", s.desc, skipped, got)
+				}
+				c.Nontrivial(vf.NewHash().Str(s.desc).Str("rr-burst").U64(uint64(skipped)).Sum())
+			}
+			return
+		}
 		n := s.drive(doClose)
 		// conservation: let one more tick pass, then compare. Only reports written AFTER the
 		// traffic ended (logical stamp) are evidence; in real time the ticker goroutine may be late
@@ -671,6 +704,46 @@ func (s *scenario) bweCloseOverlap(r *vf.Rand) {
 }
 
 // reportAfterEnd tells whether a sender report for stream 0 was written after the traffic ended.
+// receiverReportBurst: one reader delivers a long gap-ridden run on remote stream 0 back to back
+// while the receiver-report ticker builds reports at 1..5 ms (real time). All accesses are under
+// the stream's mutex, so the race detector has nothing to say; what can go wrong is atomicity:
+// a report that scans the reception history and commits its boundary in two critical sections
+// loses the losses in between. After the traffic the cumulative-lost of the last report equals
+// the numbers skipped (single in-order reader: exact). The reader never runs more than 4000
+// packets ahead of the last report, so every interval stays inside the 8192-packet history.
+func (s *scenario) receiverReportBurst(r *vf.Rand) (skipped int64, ok bool) {
+	buf := make([]byte, 1500)
+	payload := []byte{1, 2, 3, 4}
+	var first, last uint16
+	n := 0
+	sinceReport, seenReports := 0, s.rtcpOut.Count.Load()
+	deadline := time.Now().Add(15 * time.Second)
+	for n < 30000 {
+		if c := s.rtcpOut.Count.Load(); c != seenReports {
+			seenReports, sinceReport = c, 0
+		}
+		if sinceReport >= 4000 {
+			if time.Now().After(deadline) {
+				return 0, false // the ticker did not run (loaded machine): nothing to decide
+			}
+			runtime.Gosched()
+			continue
+		}
+		seq := uint16(s.rseq[0].Add(uint32(r.Pick(1, 1, 1, 2, 3))))
+		if n == 0 {
+			first = seq
+		}
+		last = seq
+		h := rtp.Header{Version: 2, PayloadType: 96, SequenceNumber: seq, Timestamp: uint32(n * 90), SSRC: 3000}
+		pkt, _ := (&rtp.Packet{Header: h, Payload: payload}).Marshal()
+		s.rfeed[0].Push(obs.FeedItem{Data: pkt})
+		_, _, _ = s.rr[0].Read(buf, interceptor.Attributes{})
+		n++
+		sinceReport++
+	}
+	return int64(last-first) + 1 - int64(n), true
+}
+
 func (s *scenario) reportAfterEnd() bool {
 	hasSender := false
 	for _, b := range s.members {
